@@ -1,12 +1,12 @@
 package main
 
 import (
-	"sort"
 	"fmt"
 	"go/ast"
 	"go/token"
 	"go/types"
 	"regexp"
+	"sort"
 	"strconv"
 	"strings"
 
@@ -394,6 +394,7 @@ func (fc *FnCtx) instr(ins ssa.Instruction) {
 		ci := &closureInfo{fn: x.Fn.(*ssa.Function)}
 		for i, b := range x.Bindings {
 			ci.bindings = append(ci.bindings, fc.term(b))
+			ci.cells = append(ci.cells, b)
 			// a captured write-once variable is the same value inside the closure
 			if cv, ok := g.constVal[b]; ok && i < len(ci.fn.FreeVars) {
 				g.constVal[ci.fn.FreeVars[i]] = cv
